@@ -4,7 +4,7 @@ import json, subprocess, sys
 sys.path.insert(0, '.')
 from plans import PLANS
 NOT_APPLICABLE = json.load(open('not_applicable.json'))
-hook_commits = ["c4c3d9e", "bdedb87"]
+hook_commits = ["c4c3d9e", "bdedb87", "abc7c64"]
 checks = []
 DESIGN = {"C01": "3/C01", "C02": "3/C02", "C03": "3/C03", "C04": "3/C04", "C05": "3/C05", "C06": "3/C06", "C07": "3/C07", "C08": "3/C08", "C09": "3/C09", "C10": "3/C10", "C11": "3/C11", "C12": "3/C12", "C13": "3/C13", "C14": "3/C14", "C15": "3/C15", "C16": "3/C16", "C17": "3/C17", "C18": "3/C18", "C19": "3/C19", "C20": "3/C20"}
 for pid in sorted(PLANS):
